@@ -94,18 +94,22 @@ def _in_set(items, cp: int) -> bool:
 
 
 def _sample(tree, rng: random.Random, pool: Sequence[str], out: List[str]) -> None:
+    # '.', [^x] and complemented sets never receive an astral character: the UTF-16 image of
+    # such an atom matches one code unit only -- the documented limitation of
+    # fix_pattern_for_utf16 recorded as known finding C17 dot-or-complement-vs-astral
+    bmp = [c for c in pool if ord(c) < 0x10000]
     for op, av in tree:
         if op is sre_constants.LITERAL:
             out.append(chr(av))
         elif op is sre_constants.NOT_LITERAL:
-            out.append(rng.choice([c for c in pool if ord(c) != av]))
+            out.append(rng.choice([c for c in bmp if ord(c) != av]))
         elif op is sre_constants.ANY:
-            out.append(rng.choice([c for c in pool if c != "\n"]))
+            out.append(rng.choice([c for c in bmp if c != "\n"]))
         elif op is sre_constants.IN:
             ranges = [(a, b) for o, (a, b) in ((o, v) for o, v in av if o is sre_constants.RANGE)]
             lits = [v for o, v in av if o is sre_constants.LITERAL]
             negated = any(o is sre_constants.NEGATE for o, _ in av)
-            cands = [c for c in pool if _in_set(av, ord(c))]
+            cands = [c for c in (bmp if negated else pool) if _in_set(av, ord(c))]
             if not negated:
                 for a, b in ranges:
                     for _ in range(3):
@@ -316,6 +320,9 @@ class InstanceGen:
         #: None, "lo" or "hi": length-constrained values take the smallest / largest
         #: admissible length (boundary instances)
         self.boundary: Optional[str] = None
+        #: objects that one top-level instance may still create (bounds the document size:
+        #: validation of nested oneOf dispatch and the in-Coq terms grow quickly with it)
+        self.budget = 40
         self.height: Dict[str, int] = {}
         self._vc: Dict[Tuple[str, str], VC] = {}
         self._compute_heights()
@@ -455,6 +462,9 @@ class InstanceGen:
         raise ValueError(t.name)
 
     def instance(self, cls: mmg.Class, depth: int, p_optional: float = 0.5) -> Dict[str, Any]:
+        self.budget -= 1
+        if self.budget < 0:
+            raise ValueError("instance too large")
         props: Dict[str, Any] = {}
         for prop, _ in mmg.stacked_properties(self.mm, cls):
             vc = self.vc(cls, prop)
@@ -475,6 +485,7 @@ class InstanceGen:
         if self.height.get(cls.name, INF) > depth + 1:
             return None
         self.boundary = boundary
+        self.budget = 40
         try:
             p_opt = 1.0 if boundary is not None else self.rng.choice([0.2, 0.5, 0.9])
             return self.instance(cls, depth, p_optional=p_opt)
@@ -880,17 +891,20 @@ def utf16_units(s: str) -> str:
 
 
 def search_table(patterns: Sequence[str], doc: Any) -> str:
-    """``list ((pattern, string), bool)``: Python ``re.search`` of every schema pattern on
-    the UTF-16 image of every string of the document (the trusted regex oracle of the
-    in-Coq validation)."""
+    """``list (pattern * list string)``: for every schema pattern the strings of the document
+    on whose UTF-16 image Python ``re.search`` finds it (the trusted regex oracle of the
+    in-Coq validation; a pair that is not listed is a non-match)."""
     strs: List[str] = []
     strings_in(doc, strs)
+    distinct = sorted(set(strs))
+    images = [(s, utf16_units(s)) for s in distinct]
     rows = []
     for p in sorted(set(patterns)):
-        for s in sorted(set(strs)):
-            try:
-                hit = re.search(p, utf16_units(s)) is not None
-            except re.error:
-                hit = False
-            rows.append(f"(({_t(p)}, {_t(s)}), {_b(hit)})")
+        try:
+            rx = re.compile(p)
+        except re.error:
+            continue
+        hits = [s for s, u in images if rx.search(u) is not None]
+        if hits:
+            rows.append(f"({_t(p)}, {_lst(_t(s) for s in hits)})")
     return _lst(rows)
